@@ -259,6 +259,88 @@ fn check_help(root: &Level, unit: &Value, p: &bpaf::OptionParser<Val>, ctx: &mut
     go(unit, root, &mut vec![], &mut vec![], p, &all, 0, ctx, &mut counter);
 }
 
+// ------------------------------------------------------------------------------------------
+// an ordinary sub-command inside an adjacent command, the adjacent commands chained under many:
+// the inner command ends where its parent's block ends (`build target -y clean -f`)
+// ------------------------------------------------------------------------------------------
+fn chainnest_opts() -> Opts {
+    let target = P::cmd("target", Opts::new(P::Seq(vec![P::Switch(Names::short('y'))])));
+    let build = P::Cmd { name: "build".into(), shorts: vec![], longs: vec![], inner: Box::new(Opts::new(P::Seq(vec![target]))), adjacent: true, help: None };
+    let clean = P::Cmd { name: "clean".into(), shorts: vec![], longs: vec![], inner: Box::new(Opts::new(P::Seq(vec![P::Switch(Names::short('f'))]))), adjacent: true, help: None };
+    Opts::new(P::Seq(vec![P::Alt(vec![build, clean]).many()]))
+}
+
+/// Some(value) for lines that are a sequence of blocks `build target [-y]` | `clean [-f]`
+fn chainnest_model(argv: &[Tok]) -> Option<Val> {
+    let w: Vec<String> = argv.iter().map(|t| t.lossy()).collect();
+    let mut blocks = vec![];
+    let mut i = 0;
+    while i < w.len() {
+        match w[i].as_str() {
+            "build" => {
+                if w.get(i + 1).map(|s| s.as_str()) != Some("target") {
+                    return None;
+                }
+                i += 2;
+                let y = w.get(i).map(|s| s.as_str()) == Some("-y");
+                if y {
+                    i += 1;
+                }
+                blocks.push(Val::Cmd("build".into(), Box::new(Val::T(vec![Val::Cmd("target".into(), Box::new(Val::T(vec![Val::B(y)])))]))));
+            }
+            "clean" => {
+                i += 1;
+                let f = w.get(i).map(|s| s.as_str()) == Some("-f");
+                if f {
+                    i += 1;
+                }
+                blocks.push(Val::Cmd("clean".into(), Box::new(Val::T(vec![Val::B(f)]))));
+            }
+            _ => return None,
+        }
+    }
+    Some(Val::T(vec![Val::L(blocks)]))
+}
+
+fn run_chainnest(len: usize, unit: &Value, only: Option<&[Tok]>, ctx: &mut Ctx) {
+    let p = match build_checked(&chainnest_opts()) {
+        Ok(p) => p,
+        Err(_) => return,
+    };
+    let mut one = |argv: &[Tok], ctx: &mut Ctx| {
+        ctx.begin_case(|| json!({"argv": argv}));
+        ctx.s.evaluations += 1;
+        ctx.s.states += 1;
+        let m = chainnest_model(argv);
+        let r = run(&p, argv);
+        let ok = match (&m, &r) {
+            (Some(a), Outcome::Value(b)) => a == b,
+            (None, Outcome::Stderr(t)) => !t.trim().is_empty(),
+            _ => false,
+        };
+        if ok {
+            ctx.s.nontrivial += 1;
+            ctx.s.validated += 1;
+            ctx.count("commands-nested-in-chained-adjacent-commands-judged");
+        } else {
+            let mut sig = std::collections::BTreeMap::new();
+            sig.insert("clause".to_string(), "inner-command-ends-with-its-parents-block".to_string());
+            sig.insert("expected".to_string(), if m.is_some() { "value" } else { "failure" }.to_string());
+            sig.insert("observed".to_string(), r.class().to_string());
+            ctx.violation(Violation { property: "C08".into(), rule: "items-right-of-a-command-name-belong-to-that-command".into(), sig, unit: unit.clone(), case: json!({"argv": argv}), expected: match &m { Some(v) => format!("{:?}", v), None => "a failure with a message".into() }, observed: r.brief(), size: argv.len() * 1000 });
+        }
+    };
+    if let Some(a) = only {
+        one(a, ctx);
+        return;
+    }
+    let alpha = toks(&["build", "target", "-y", "clean", "-f"]);
+    tree(&alpha, len, &mut |argv| {
+        one(argv, ctx);
+        true
+    });
+}
+
 impl Check for C08 {
     fn id(&self) -> &'static str {
         "C08"
@@ -291,11 +373,16 @@ impl Check for C08 {
                 }
             }
         }
+        out.push(json!({"chainnest": tier.pick(6, 7)}));
         out
     }
     fn run_unit(&self, unit: &Value, ctx: &mut Ctx) {
         if let Some(k) = unit.get("odd").and_then(|k| k.as_u64()) {
             crate::checks::c10::run_odd_command("C08", k as usize, unit, None, ctx);
+            return;
+        }
+        if let Some(n) = unit.get("chainnest").and_then(|k| k.as_u64()) {
+            run_chainnest(n as usize, unit, None, ctx);
             return;
         }
         if let Some(n) = unit.get("nest") {
@@ -346,6 +433,11 @@ impl Check for C08 {
             crate::checks::c10::run_odd_command("C08", k as usize, unit, Some(&argv), ctx);
             return;
         }
+        if let Some(n) = unit.get("chainnest").and_then(|k| k.as_u64()) {
+            let argv: Vec<Tok> = serde_json::from_value(case["argv"].clone()).unwrap_or_default();
+            run_chainnest(n as usize, unit, Some(&argv), ctx);
+            return;
+        }
         if let Some(n) = unit.get("nest") {
             let d: crate::checks::c19::NestDef = serde_json::from_value(n.clone()).unwrap();
             let argv: Vec<Tok> = serde_json::from_value(case["argv"].clone()).unwrap_or_default();
@@ -374,7 +466,7 @@ impl Check for C08 {
         }
     }
     fn rule(&self) -> String {
-        "definitions = command trees of depth <=3: top level {0,1,2 named items} x {1,2 sibling commands, either order} x {required, optional, fallback, default as last alternative, default as first alternative} x second level {0,1 named item} x {no tail, optional / required positional, required / optional / default-first third-level command with 2 leaf variants}, long and short command aliases on every third tree, fallback_to_usage on every level of a third of the trees; inputs = every vector of the token tree (full alphabet: all names, aliases, inline forms, clusters, words, `--`, unknown names) plus, per command path and alias, the canonical sentence and EVERY misplacement of each deeper-level block to each position left of its command name, unknown / duplicated / displaced command names; all judged by the level-aware reference scanner; plus `path --help` for every path: usage line starts with the path, names mentioned are exactly that level's; plus adjacent sub-commands (bare / optional / repeated, beside a parent switch, holding an adjacent group) over their token tree, judged by the block scanner: the command owns exactly its contiguous block; hidden commands (alone, among visible siblings) and commands under some(..): help behind the name is the command's own".into()
+        "definitions = command trees of depth <=3: top level {0,1,2 named items} x {1,2 sibling commands, either order} x {required, optional, fallback, default as last alternative, default as first alternative} x second level {0,1 named item} x {no tail, optional / required positional, required / optional / default-first third-level command with 2 leaf variants}, long and short command aliases on every third tree, fallback_to_usage on every level of a third of the trees; inputs = every vector of the token tree (full alphabet: all names, aliases, inline forms, clusters, words, `--`, unknown names) plus, per command path and alias, the canonical sentence and EVERY misplacement of each deeper-level block to each position left of its command name, unknown / duplicated / displaced command names; all judged by the level-aware reference scanner; plus `path --help` for every path: usage line starts with the path, names mentioned are exactly that level's; plus adjacent sub-commands (bare / optional / repeated, beside a parent switch, holding an adjacent group) over their token tree, judged by the block scanner: the command owns exactly its contiguous block; hidden commands (alone, among visible siblings) and commands under some(..): help behind the name is the command's own; an ordinary command nested in an adjacent command, chained under many (build target [-y] | clean [-f]): lines that are sequences of such blocks give the blocks in order, every other line fails".into()
     }
     fn bounds(&self, tier: Tier) -> Value {
         json!({"depth": 3, "siblings": 2, "tree_vector_length": tier.pick(3, 4), "sentence_length": "up to 9 tokens with one displaced block"})
